@@ -119,7 +119,9 @@ def run(spec, cfg, overrides=None, workers=8, timeout=600, env=None, extra=None,
                 shutil.copy(os.path.join(SPECS, fn), work)
         cfg_path = os.path.join(work, "run.cfg")
         open(cfg_path, "w").write(cfg_text)
-        java = ["java", "-XX:+UseParallelGC", "-Xmx8g", "-Xss64m"]
+        # (TLC leaves an empty tlc-<n> directory in java.io.tmpdir per run: keep those inside the work directory)
+        os.makedirs(os.path.join(work, "jtmp"), exist_ok=True)
+        java = ["java", "-XX:+UseParallelGC", "-Xmx8g", "-Xss64m", "-Djava.io.tmpdir=" + os.path.join(work, "jtmp")]
         if deque:
             java.append("-Dtlc2.tool.queue.IStateQueue=StateDeque")
         cmd = java + ["-cp", JAR, "tlc2.TLC", "-config", "run.cfg", "-workers", str(workers),
